@@ -39,6 +39,13 @@ func SendServiceUsageRequest(
 	sur.DestinationHost = datatype.DiameterIdentity(meta.OriginHost)
 
 	msg := diam.NewRequest(charging_code.ServiceUsageMessage, charging_code.Re_interface, dict.Default)
+
+	// an answer that arrived after its own request had timed out must not be taken for this one
+	select {
+	case <-ue.RatingChan:
+		logger.RatingLog.Warnf("Discard stale SUA")
+	default:
+	}
 	err = msg.Marshal(sur)
 	if err != nil {
 		return nil, fmt.Errorf("Marshal SUR Failed: %s\n", err)
@@ -66,6 +73,12 @@ func HandleSUA(rgChan chan *diam.Message) diam.HandlerFunc {
 	return func(c diam.Conn, m *diam.Message) {
 		logger.RatingLog.Tracef("Received SUA from %s", c.RemoteAddr())
 
-		rgChan <- m
+		// never block the connection's serving goroutine (it holds the read lock of the state machine
+		// mux): if nobody can take the answer any more it is late and is discarded
+		select {
+		case rgChan <- m:
+		default:
+			logger.RatingLog.Warnf("Discard SUA from %s: no request is waiting for it", c.RemoteAddr())
+		}
 	}
 }
